@@ -125,7 +125,15 @@ class _CheckingJacobian(DictionaryJacobian):
         super().__init__(system)
 
     def _setup(self, system):
-        self._subjacs_info = self._subjacs_info.copy()
+        # each checking jacobian needs private metadata and values: the sparsity audit writes
+        # into the metadata and set_col writes into 'val'
+        subjacs_info = {}
+        for key, meta in self._subjacs_info.items():
+            meta = meta.copy()
+            if hasattr(meta['val'], 'copy'):
+                meta['val'] = meta['val'].copy()
+            subjacs_info[key] = meta
+        self._subjacs_info = subjacs_info
 
         self._setup_index_maps(system)
         self._subjacs = self._get_subjacs(system)
